@@ -1,5 +1,8 @@
 (** C13 — Data scope: child overlays parent, locked sections are atomic.
-    Only statements; every proof is [exact <lemma of Proofs/Data.v>].
+    Only statements; every proof is [exact <lemma of Proofs/Data.v or Proofs/DataMore.v>].
+    First part: the original theorems.  Second part (after the first examples): the theorems of the
+    proof audit, which state the clauses over whole histories, whole locked sections and systems
+    in which the locked sections run among ARBITRARY other goroutines.
 
     A chain is a list of maps, innermost child first; scope [j] is level [j], its ancestors are
     the levels [> j]; value [0] is Go's nil.  [final_chain st0 ops] is the chain after an
@@ -8,7 +11,7 @@
     lock-protected region of data.go / child.go / locker.go; threads are arbitrary programs over
     {Value, SetValue, LockData, locker.Value, locker.SetValue, Commit} (plus the two
     read-modify-write forms) on arbitrary levels. *)
-From GC Require Import Common.Base Model.Data Proofs.Data.
+From GC Require Import Common.Base Model.Data Model.DataMore Proofs.Data Proofs.DataMore.
 
 (** Overlay, any depth, after any history: a scope answers with its own binding when it has one
     and otherwise with what its parent answers NOW; beyond the root the answer is nil. *)
@@ -141,4 +144,222 @@ Proof. vm_compute. reflexivity. Qed.
 Example C13_ex_goc :
   let s := run [1;1;0;1;2;1;1;1;0;0;2;0;0;2;2;2;2]%nat (goc_sys [[]; [(9, 1)]] 0 7 [100; 200; 300]) in
   (all_done s, map reg (ths s), value_at (maps s) 0 7) = (true, [200; 200; 200], 200).
+Proof. vm_compute. reflexivity. Qed.
+
+(** * Second part: proof audit *)
+
+(** ** Histories.  [C13_overlay] speaks about the chain a history leaves; the three theorems below
+    speak about the history itself.  What the implementation answers at position [length ops1] of
+    any history is computed from the chain left by the operations before it ... *)
+Theorem C13_history_observation : forall st0 ops1 o ops2,
+  nth_error (snd (sexec_all st0 (ops1 ++ o :: ops2))) (length ops1)
+  = Some (snd (sexec (final_chain st0 ops1) o)).
+Proof. exact obs_at_prefix. Qed.
+Print Assumptions C13_history_observation.
+
+(** ... and a Value there is the most recent store (plain or through a locker) on the nearest
+    scope, own first and then towards the root, that has the key at all - stored by the history or
+    present initially - and nil when no scope up to the root has it.  Any depth, any history.
+    (Supersedes C13_overlay / C13_overlay_root / C13_set_then_value as a functional description.) *)
+Theorem C13_history_value : forall st0 ops j k,
+  value_at (final_chain st0 ops) j k
+  = first_bound (fun l => bound_after st0 ops l k) j (length st0 - j).
+Proof. exact history_value. Qed.
+Print Assumptions C13_history_value.
+
+(** Setting values in descendants never changes an ancestor, over whole histories: every
+    observation (Value, Keys, plain or through a locker) on scope [i] or above, at any point of
+    any history, is what it would have been had the operations on the scopes below [i] never
+    happened.  (Supersedes the one-step C13_child_set_local.) *)
+Theorem C13_history_ancestors_unaffected : forall st0 ops i o,
+  (i <= sop_level o)%nat ->
+  snd (sexec (final_chain st0 ops) o) = snd (sexec (final_chain st0 (filter (on_or_above i) ops)) o).
+Proof. exact history_ancestors_unaffected. Qed.
+Print Assumptions C13_history_ancestors_unaffected.
+
+(** ** Whole locked sections.  [C13_exclusive] is about one step; this is the section: from any
+    reachable state in which [o] holds scope [j], let the OTHER threads run for as long as they
+    like ([sched'] without [o], any length, any programs): scope [j]'s map is exactly as the holder
+    left it, [o] still owns [j], and the holder's own state (its register, what it is about to do)
+    is untouched. *)
+Theorem C13_section_isolated : forall st progs sched sched' j o,
+  let s := run sched (init st progs) in
+  own s j = Some o -> ~ In o sched' ->
+  let s' := run sched' s in
+  nth_error (maps s') j = nth_error (maps s) j /\ own s' j = Some o /\
+  nth_error (ths s') o = nth_error (ths s) o.
+Proof. exact section_isolated. Qed.
+Print Assumptions C13_section_isolated.
+
+(** ... and nobody can keep the holder from using its locker: SetValue, the own level of Value and
+    Commit are enabled in every state (exclusive access is access). *)
+Theorem C13_holder_enabled : forall s o t j,
+  nth_error (ths s) o = Some t -> held t = Some j -> locker_own_op t = true -> step o s <> None.
+Proof. exact holder_enabled. Qed.
+Print Assumptions C13_holder_enabled.
+
+(** No read, write or lock of another goroutine on a locked scope takes effect, stated without the
+    auxiliary [touches]: while [o] holds [j], whatever any other thread can do it does identically
+    when scope [j]'s map is replaced by an arbitrary map [m] (same enabledness, same register, same
+    effect on every other scope), and it leaves the replaced map in place.  So the others can
+    neither observe nor change what the holder has done so far. *)
+Theorem C13_locked_scope_invisible : forall st progs sched j o u m,
+  let s := run sched (init st progs) in
+  own s j = Some o -> u <> o ->
+  step u (with_level s j m) = option_map (fun s' => with_level s' j m) (step u s).
+Proof. exact locked_scope_invisible. Qed.
+Print Assumptions C13_locked_scope_invisible.
+
+(** ** Read-modify-write under the lock among ARBITRARY other goroutines.  Goroutine [i < length cs]
+    does [nth i cs] locked increments of key [k] on scope [j] (the harness's counter goroutines);
+    [others] are arbitrary programs - plain reads and writes on any scope, lockers on any scope
+    including [j], committed or not - restricted only in that they do not themselves store under
+    [k] into [j] or an ancestor of [j] ([quiet]; plain stores of [k] into descendants are allowed).
+    Every schedule, every moment: the value plus the increments still to come is the initial value
+    plus all increments - no update is lost, whatever the others do.
+    (Supersedes C13_rmw_every_moment and C13_rmw, which are the case others = [], cs = 1,...,1.) *)
+Theorem C13_rmw_mixed_every_moment : forall st0 j k cs others sched,
+  (j < length st0)%nat -> forallb (quiet j k) others = true ->
+  let s := run sched (mixed_sys st0 j k cs others) in
+  value_at (maps s) j k + N.of_nat (GC.Proofs.Locks.sumf (adds_left k) (ths s))
+  = value_at st0 j k + N.of_nat (list_sum cs).
+Proof. intros st0 j k cs others sched H1 H2. exact (rmw_mixed_every_moment st0 j k cs others H1 H2 sched). Qed.
+Print Assumptions C13_rmw_mixed_every_moment.
+
+Theorem C13_rmw_mixed : forall st0 j k cs others sched,
+  (j < length st0)%nat -> forallb (quiet j k) others = true ->
+  let s := run sched (mixed_sys st0 j k cs others) in
+  (forall i t, (i < length cs)%nat -> nth_error (ths s) i = Some t -> prog t = []) ->
+  value_at (maps s) j k = value_at st0 j k + N.of_nat (list_sum cs).
+Proof. intros st0 j k cs others sched H1 H2. exact (rmw_mixed_final st0 j k cs others H1 H2 sched). Qed.
+Print Assumptions C13_rmw_mixed.
+
+(** the counter goroutines of the correspondence check (several increments each) never deadlock *)
+Theorem C13_rmw_loops_no_deadlock : forall st0 j k cs sched,
+  (j < length st0)%nat ->
+  let s := run sched (mixed_sys st0 j k cs []) in
+  all_done s = false -> exists i, step i s <> None.
+Proof. exact rmw_loops_no_deadlock. Qed.
+Print Assumptions C13_rmw_loops_no_deadlock.
+
+(** Get-or-create among arbitrary other goroutines (same [quiet] restriction): all callers that
+    have returned got the same non-nil instance, the one the scope answers with.
+    (Supersedes C13_get_or_create, the case others = [].) *)
+Theorem C13_get_or_create_mixed : forall st0 j k vs others sched a b ta tb,
+  (j < length st0)%nat -> Forall (fun v => v <> 0) vs -> forallb (quiet j k) others = true ->
+  let s := run sched (goc_mixed_sys st0 j k vs others) in
+  (a < length vs)%nat -> nth_error (ths s) a = Some ta -> prog ta = [] ->
+  (b < length vs)%nat -> nth_error (ths s) b = Some tb -> prog tb = [] ->
+  reg ta = reg tb /\ reg ta <> 0 /\ reg ta = value_at (maps s) j k.
+Proof.
+  intros st0 j k vs others sched a b ta tb H1 H2 H3.
+  exact (goc_mixed_one_instance st0 j k vs others H1 H2 H3 sched a b ta tb).
+Qed.
+Print Assumptions C13_get_or_create_mixed.
+
+(** ** Lock order.  ANY programs that take lockers one at a time, commit each, and while holding
+    the locker of scope [j] go only through scopes strictly above [j] (which is what the locker's
+    own Value does when it falls back to the parent) never deadlock, under any schedule.
+    (Supersedes C13_rmw_no_deadlock and C13_get_or_create_no_deadlock: both idioms are [upward].)
+    The order matters: a holder of the parent's locker that reads the child, against a holder of
+    the child's locker whose Value falls back to the parent, is stuck after three steps - in the
+    model and (checked with a throw-away test) in the Go code; that is a caller's lock-order
+    inversion, none of the services does it. *)
+Theorem C13_lock_order_no_deadlock : forall st progs sched,
+  forallb upward progs = true ->
+  let s := run sched (init st progs) in
+  all_done s = false -> exists i, step i s <> None.
+Proof. exact upward_no_deadlock. Qed.
+Print Assumptions C13_lock_order_no_deadlock.
+
+Theorem C13_lock_order_deadlock_refuted :
+  let s := run [0; 1; 0]%nat (init [[]; [(9, 1)]] [[OLock 0; OLRead 7; OCommit]; [OLock 1; ORead 0 7; OCommit]]) in
+  all_done s = false /\ step 0%nat s = None /\ step 1%nat s = None.
+Proof. exact lock_order_deadlock. Qed.
+Print Assumptions C13_lock_order_deadlock_refuted.
+
+(** Non-vacuity of the second part. *)
+Definition ex_hist : list sop :=
+  [SSet 0 3 8; SLSet 2 3 6; SSet 1 1 2; SGet 0 3; SLSet 0 3 1; SSet 2 2 9; SKeys 1; SLSet 1 4 4].
+(** Value on the leaf / the middle scope for keys 1..4 after the history, as computed by the model
+    and as given by the last-store description; the stored values are visible in both *)
+Example C13_ex_history_value :
+  (map (value_at (final_chain ex_chain ex_hist) 0) [1; 2; 3; 4; 5],
+   map (fun k => first_bound (fun l => bound_after ex_chain ex_hist l k) 1 2) [1; 2; 3; 4; 5])
+  = ([5; 7; 1; 4; 0], [2; 7; 6; 4; 0]).
+Proof. vm_compute. reflexivity. Qed.
+Example C13_ex_history_observation :
+  nth_error (snd (sexec_all ex_chain ex_hist)) 3 = Some (SVal 8).
+Proof. vm_compute. reflexivity. Qed.
+(** the root's answers with and without everything done below it (5 of the 8 operations dropped) *)
+Example C13_ex_history_ancestors :
+  (length (filter (on_or_above 2) ex_hist),
+   snd (sexec (final_chain ex_chain ex_hist) (SGet 2 3)),
+   snd (sexec (final_chain ex_chain (filter (on_or_above 2) ex_hist)) (SGet 2 3)),
+   snd (sexec (final_chain ex_chain (filter (on_or_above 2) ex_hist)) (SKeys 2)))
+  = (2%nat, SVal 6, SVal 6, SKeyset [1; 3; 2]).
+Proof. vm_compute. reflexivity. Qed.
+
+(** thread 0 holds the middle scope and has written 5 -> its section stays open while the others
+    take 7 scheduled turns (5 of them are real steps: a read of the leaf, reads and a write of the
+    root; the read through the middle scope and the write to it stay blocked) *)
+Definition ex_open : cstate :=
+  run [0; 0; 0; 0]%nat (init ex_chain [counter_prog 1 3; [ORead 0 2]; [OWrite 1 5 5]; [ORead 0 1; ORead 2 3; OWrite 2 3 0]]).
+Example C13_ex_section_isolated :
+  let s' := run [1; 3; 2; 3; 1; 3; 3]%nat ex_open in
+  (own ex_open 1%nat, nth_error (maps ex_open) 1, nth_error (maps s') 1,
+   map (fun t => length (prog t)) (ths s'), value_at (maps s') 2 3,
+   match step 0%nat s' with Some _ => true | None => false end)
+  = (Some 0%nat, Some [(2, 7); (3, 5)], Some [(2, 7); (3, 5)], [1; 1; 1; 0]%nat, 0, true).
+Proof. vm_compute. reflexivity. Qed.
+(** replacing the locked scope's map changes nothing for thread 3 (enabled, reads the leaf) nor
+    for thread 2 (blocked both times) *)
+Example C13_ex_invisible :
+  (option_map (fun s => (maps s, map reg (ths s))) (step 3%nat (with_level ex_open 1 [(1, 99)])),
+   option_map (fun s => (maps s, map reg (ths s))) (step 3%nat ex_open),
+   step 2%nat (with_level ex_open 1 [(1, 99)]), step 2%nat ex_open)
+  = (Some ([[(1, 5)]; [(1, 99)]; [(1, 9); (3, 4)]], [4; 0; 0; 5]),
+     Some ([[(1, 5)]; [(2, 7); (3, 5)]; [(1, 9); (3, 4)]], [4; 0; 0; 5]), None, None).
+Proof. vm_compute. reflexivity. Qed.
+
+(** two counters (2 and 1 increments) on the middle scope, key 3 lives in the root, among a plain
+    reader/writer of the leaf under the same key, a goroutine that takes the middle scope's locker
+    itself for another key, and one that writes the root under another key and then holds the
+    root's locker: all [quiet]; an interleaved schedule; everybody done; 4 + 3 *)
+Definition ex_others : list (list op) :=
+  [[ORead 0 3; OWrite 0 3 50; ORead 0 3]; [OLock 1; OLWrite 8 8; OLRead 3; OCommit];
+   [OWrite 2 1 77; OLock 2; OLRead 1; OCommit]].
+Example C13_ex_rmw_mixed :
+  let s := run [0;3;1;4;0;2;0;0;1;0;1;1;2;3;3;4;4;1;1;1;2;2;2;2;2;0;0;0;0;1;1;1;1;3;3;3;4;4;4;2;2;3]%nat
+               (mixed_sys ex_chain 1 3 [2; 1]%nat ex_others) in
+  (forallb (quiet 1 3) ex_others, all_done s, value_at (maps s) 1 3, map reg (ths s), maps s)
+  = (true, true, 7, [6; 5; 50; 7; 77],
+     [[(1, 5); (3, 50)]; [(2, 7); (3, 7); (8, 8)]; [(1, 77); (3, 4)]]).
+Proof. vm_compute. reflexivity. Qed.
+(** the restriction on the others is needed: a plain store under the same key into the same scope
+    between two sections is a legitimate overwrite, and the sum is then no longer the count *)
+Example C13_ex_rmw_mixed_not_quiet :
+  let s := run [0;0;0;0;1;0;0;0;0]%nat (mixed_sys [[(7, 10)]] 0 7 [2]%nat [[OWrite 0 7 0]]) in
+  (quiet 0 7 [OWrite 0 7 0], all_done s, value_at (maps s) 0 7) = (false, true, 1).
+Proof. vm_compute. reflexivity. Qed.
+Example C13_ex_goc_mixed :
+  let s := run ([1;3;1;0;1;2;3;1;1;3;0;2;1] ++ concat (repeat [0;3;2;1] 14))%nat
+               (goc_mixed_sys [[]; [(9, 1)]] 0 7 [100; 200; 300]
+                  [[ORead 0 7; OWrite 1 9 2; OLock 0; OLRead 7; OCommit]]) in
+  (all_done s, map reg (ths s), value_at (maps s) 0 7, maps s)
+  = (true, [200; 200; 200; 200], 200, [[(7, 200)]; [(9, 2)]]).
+Proof. vm_compute. reflexivity. Qed.
+(** programs that obey the order: the two idioms, a section on the leaf that reads and writes the
+    root, plain users; the inverted pair of the refutation does not *)
+Example C13_ex_upward :
+  (forallb upward [counter_prog 1 3; goc_prog 0 7 100; counter_loop 2 3 3;
+                   [OLock 0; OLRead 3; ORead 2 3; OWrite 2 3 1; OCommit; OWrite 0 1 1; OLock 1; OLAdd 2 1; OCommit];
+                   [ORead 0 1; OWrite 1 2 3]],
+   upward [OLock 1; ORead 0 7; OCommit], upward [OLock 0; OLock 1; OCommit; OCommit], upward [OLock 0])
+  = (true, false, false, false).
+Proof. vm_compute. reflexivity. Qed.
+Example C13_ex_upward_run :
+  let s := run ([0;1;0;1;0;1;1;0;0;0;1;1;1] ++ concat (repeat [0;1] 6))%nat
+             (init ex_chain [[OLock 0; OLRead 3; ORead 2 3; OWrite 2 3 1; OCommit]; [OLock 1; OLRead 3; OLAdd 3 1; OCommit]]) in
+  (all_done s, maps s) = (true, [[(1, 5)]; [(2, 7); (3, 5)]; [(1, 9); (3, 1)]]).
 Proof. vm_compute. reflexivity. Qed.
